@@ -48,10 +48,33 @@ func iBodyB(q func(string) string) string {
 }
 
 // iState is the model: one instance of the library's variables.
-type iState struct{ v int }
+//
+// Two consistent models are accepted: "once" — the variables are initialised
+// once and every file works on that instance — and "fresh" — every execution
+// of a rendered file works on freshly initialised variables, while the code
+// that is not rendered (index, layout, extending file, imported macro files)
+// shares one instance.
+type iState struct {
+	v     int
+	fresh bool
+}
 
-func (s *iState) a() string { o := fmt.Sprintf("a%ds;", s.v); s.v++; return o }
-func (s *iState) b() string { return fmt.Sprintf("b%ds1.51112;", s.v) }
+// a and b are executions of the rendered files a.html and b.html; am is the
+// body of a.html run as an imported macro (never fresh).
+func (s *iState) a() string {
+	if s.fresh {
+		return "a5s;"
+	}
+	return s.am()
+}
+func (s *iState) am() string { o := fmt.Sprintf("a%ds;", s.v); s.v++; return o }
+func (s *iState) b() string {
+	if s.fresh {
+		return "b5s1.51112;"
+	}
+	return fmt.Sprintf("b%ds1.51112;", s.v)
+}
+func (s *iState) bm() string { return fmt.Sprintf("b%ds1.51112;", s.v) }
 
 // iContext wraps the first site. x(false) is the statement showing its
 // output, x(true) the statement that evaluates it and drops the value.
@@ -98,12 +121,18 @@ type iCase struct {
 	formA, formB string
 }
 
-func (c iCase) build() (files map[string]string, expected string) {
+func (c iCase) build() (files map[string]string, once, fresh string) {
+	files, once = c.buildModel(false)
+	_, fresh = c.buildModel(true)
+	return
+}
+
+func (c iCase) buildModel(freshModel bool) (files map[string]string, expected string) {
 	ctx := iContexts[c.ctx]
 	impA, qA := iImport(c.formA, "lib.html")
 	impB, qB := iImport(c.formB, "lib.html")
 	files = map[string]string{"lib.html": iLib}
-	st := &iState{v: 5}
+	st := &iState{v: 5, fresh: freshModel}
 	var exp strings.Builder
 	firstSite := func(kind string) {
 		for k := 0; k < ctx.count; k++ {
@@ -111,6 +140,8 @@ func (c iCase) build() (files map[string]string, expected string) {
 			switch kind {
 			case "a":
 				o = st.a()
+			case "am":
+				o = st.am()
 			case "m":
 				o = fmt.Sprintf("m%ds;", st.v)
 				st.v++
@@ -146,8 +177,8 @@ func (c iCase) build() (files map[string]string, expected string) {
 		files["am.html"] = impA + "{% macro A %}" + iBodyA(qA) + "{% end %}"
 		files["bm.html"] = impB + "{% macro B %}" + iBodyB(qB) + "{% end %}"
 		files["index.html"] = `{% import "am.html" %}{% import "bm.html" %}` + site(`{{ A() }}`, `{% x := A() %}`) + `{{ B() }}`
-		firstSite("a")
-		exp.WriteString(st.b())
+		firstSite("am")
+		exp.WriteString(st.bm())
 	case 3:
 		files["a.html"] = impA + iBodyA(qA)
 		files["b.html"] = impB + iBodyB(qB)
@@ -190,12 +221,12 @@ func iSpace() kit.Space {
 		Eval: func(i uint64) kit.Outcome {
 			c := cases[i]
 			ctx := iContexts[c.ctx]
-			files, expected := c.build()
+			files, expected, fresh := c.build()
 			a := run(files, "index.html")
 			o := kit.Outcome{OK: true, Nontrivial: true, Class: "I: first site " + ctx.category}
 			detail := func(extra string) string {
-				return fmt.Sprintf("scenario %s, first site %s (%s), import forms %s/%s\nfiles:\n%srun of index.html => %s\nexpected %q (variables of lib.html initialised once before their first use; Inc() adds 1 to V)%s",
-					iScenarios[c.scen], ctx.name, ctx.category, c.formA, c.formB, showFiles(files), a, expected, extra)
+				return fmt.Sprintf("scenario %s, first site %s (%s), import forms %s/%s\nfiles:\n%srun of index.html => %s\nexpected %q (variables of lib.html initialised once before their first use; Inc() adds 1 to V)\n      or %q (every rendered file runs on freshly initialised variables)%s",
+					iScenarios[c.scen], ctx.name, ctx.category, c.formA, c.formB, showFiles(files), a, expected, fresh, extra)
 			}
 			key := func(symptom string) string {
 				return fmt.Sprintf("I|imported-file-variables|scenario=%s|first-import-site=%s|%s", iScenarios[c.scen], ctx.category, symptom)
@@ -208,8 +239,8 @@ func iSpace() kit.Space {
 				o.OK, o.Key, o.Detail = false, key("run-error"), detail("")
 				return o
 			}
-			if a.out != expected {
-				symptom := "output-differs-from-the-initialise-once-model"
+			if a.out != expected && a.out != fresh {
+				symptom := "output-matches-neither-initialise-once-nor-fresh-per-render"
 				if strings.Contains(a.out, "b0") || strings.Contains(a.out, "m0") || strings.Contains(a.out, "i0") || strings.Contains(a.out, "a0") {
 					symptom = "variables-have-their-zero-values"
 				}
@@ -228,8 +259,8 @@ func iSpace() kit.Space {
 			return o
 		},
 		Describe: func(i uint64) any {
-			files, expected := cases[i].build()
-			return map[string]any{"main": "index.html", "files": files, "expected": expected}
+			files, expected, fresh := cases[i].build()
+			return map[string]any{"main": "index.html", "files": files, "expected_initialised_once": expected, "expected_fresh_per_render": fresh}
 		},
 	}
 }
@@ -238,12 +269,35 @@ func iSpace() kit.Space {
 
 type rCase struct {
 	kind string // macro | var
-	form string // plain | for-other | alias
-	host string // main | imported | extending
+	form string // plain | for-other | for-clash-and-other | alias
+	host string // main | layout | imported | extending
 	pos  string // top | inner-block
+	site string
 }
 
-// build returns the real file set and its twin.
+var rSites = []string{
+	"direct", "sibling-macro", "func-literal", "in-if-block", "in-for-block", "macro-argument",
+	"from-extended-layout", "outer-reference-before-block", "outer-reference-after-block", "qualified-reference",
+}
+
+// applicable reports whether the combination exists.
+func (c rCase) applicable() bool {
+	impVisible := c.form != "for-other"
+	switch c.site {
+	case "from-extended-layout":
+		return c.host == "extending" && c.pos == "top" && c.kind == "macro"
+	case "outer-reference-before-block", "outer-reference-after-block":
+		return c.pos == "inner-block" && impVisible
+	case "qualified-reference":
+		return c.form == "alias" && c.pos == "top"
+	}
+	return true
+}
+
+// build returns the real file set and its twin. Every case has exactly one
+// reference under test: its output is "in:<value>" for a reference that must
+// name the file's own declaration and "out:<value>" for one that must name the
+// imported declaration.
 func (c rCase) build() (real, twin map[string]string, clashExpected bool) {
 	gen := func(twinForm bool) map[string]string {
 		libM, libW := "M", "W"
@@ -251,84 +305,106 @@ func (c rCase) build() (real, twin map[string]string, clashExpected bool) {
 			libM, libW = "LM", "LW"
 		}
 		lib := "{% macro " + libM + " %}libM{% end %}{% var " + libW + ` = "libW" %}{% macro Other %}libO{% end %}`
+		clashName := libM
+		if c.kind == "var" {
+			clashName = libW
+		}
 		var imp, qual string
 		switch c.form {
 		case "plain":
 			imp = `{% import "lib2.html" %}`
 		case "for-other":
 			imp = `{% import "lib2.html" for Other %}`
+		case "for-clash-and-other":
+			imp = `{% import "lib2.html" for ` + clashName + `, Other %}`
 		case "alias":
 			imp, qual = `{% import l "lib2.html" %}`, "l."
 		}
-		var own, refOwn, refImp, capDecl, capCall string
+		var own, e, eImp, typ string
 		if c.kind == "macro" {
-			own = `{% macro M %}ownM{% end %}`
-			refOwn = `{{ M() }}`
-			refImp = "{{ " + qual + libM + "() }}"
-			capDecl, capCall = `{% macro Cap %}{{ M() }}{% end %}`, `{{ Cap() }}`
+			own, e, eImp, typ = `{% macro M %}ownM{% end %}`, `M()`, qual+libM+"()", "html"
 		} else {
-			own = `{% var W = "ownW" %}`
-			refOwn = `{{ W }}`
-			refImp = "{{ " + qual + libW + " }}"
-			capDecl, capCall = "{% macro Cap %}{{ W }}{% end %}{%% f := func() string { return W } %%}", `{{ Cap() }}{{ f() }}`
+			own, e, eImp, typ = `{% var W = "ownW" %}`, `W`, qual+libW, "string"
 		}
-		impVisible := c.form == "plain" || c.form == "alias" // an unqualified (plain) or qualified (alias) reference to the imported name is possible
-		ref := func(tag, r string) string { return tag + ":" + r + " " }
+		// the reference under test: declarations it needs and its use
+		var decl, use string
+		switch c.site {
+		case "direct":
+			use = "in:{{ " + e + " }}"
+		case "sibling-macro":
+			decl, use = "{% macro Cap %}{{ "+e+" }}{% end %}", "in:{{ Cap() }}"
+		case "func-literal":
+			decl, use = "{% var f = func() "+typ+" { return "+e+" } %}", "in:{{ f() }}"
+		case "in-if-block":
+			use = "{% if true %}in:{{ " + e + " }}{% end %}"
+		case "in-for-block":
+			use = "{% for i := 0; i < 1; i++ %}in:{{ " + e + " }}{% end %}"
+		case "macro-argument":
+			decl, use = "{% macro Wrap(s "+typ+") %}<{{ s }}>{% end %}", "in:{{ Wrap("+e+") }}"
+		case "from-extended-layout":
+			// the use is in the layout
+		case "outer-reference-before-block", "outer-reference-after-block":
+			// the own declaration is only used inside its block, silently
+			use = "{% _ = " + e + " %}"
+		case "qualified-reference":
+			use = "{% _ = " + e + " %}out:{{ " + eImp + " }}"
+		}
 		files := map[string]string{"lib2.html": lib}
-		var seq strings.Builder
-		switch c.pos {
-		case "top":
-			// own declaration in the outermost scope of the host
-			seq.WriteString(ref("2", refOwn))
-			seq.WriteString(capDecl + ref("3", capCall))
-			if c.form == "alias" {
-				seq.WriteString(ref("5", refImp))
+		other := "|o:{{ " + qual + "Other() }}"
+		var scope string // for hosts whose declarations are in the body
+		var pkgDecls, runBody string
+		if c.pos == "top" {
+			scope = own + decl + use
+			pkgDecls, runBody = own+decl, use
+		} else {
+			before, after := "", ""
+			if c.site == "outer-reference-before-block" {
+				before = "out:{{ " + eImp + " }}"
 			}
-			seq.WriteString("o:{{ " + qual + "Other() }}")
-			switch c.host {
-			case "main":
-				files["index.html"] = imp + own + seq.String()
-			case "imported":
-				files["x.html"] = imp + own + "{% macro Run %}" + seq.String() + "{% end %}"
-				files["index.html"] = `{% import "x.html" %}{{ Run() }}`
-			case "extending":
-				files["index.html"] = `{% extends "layout.html" %}` + imp + own + "{% macro Run %}" + seq.String() + "{% end %}"
-				files["layout.html"] = `L[{{ Run() }}]`
+			if c.site == "outer-reference-after-block" {
+				after = "out:{{ " + eImp + " }}"
 			}
-		case "inner-block":
-			if impVisible {
-				seq.WriteString(ref("1", refImp))
-			}
-			seq.WriteString("{% if true %}" + own + ref("2", refOwn) + capDecl + ref("3", capCall) + "{% end %}")
-			if impVisible {
-				seq.WriteString(ref("4", refImp))
-			}
-			seq.WriteString("o:{{ " + qual + "Other() }}")
-			switch c.host {
-			case "main":
-				files["index.html"] = imp + seq.String()
-			case "imported":
-				files["x.html"] = imp + "{% macro Run %}" + seq.String() + "{% end %}"
-				files["index.html"] = `{% import "x.html" %}{{ Run() }}`
-			case "extending":
-				files["index.html"] = `{% extends "layout.html" %}` + imp + "{% macro Run %}" + seq.String() + "{% end %}"
+			scope = before + "{% if true %}" + own + decl + use + "{% end %}" + after
+			pkgDecls, runBody = "", scope
+		}
+		switch c.host {
+		case "main":
+			files["index.html"] = imp + scope + other
+		case "layout":
+			files["layout.html"] = imp + "L[" + scope + other + "]"
+			files["index.html"] = `{% extends "layout.html" %}`
+		case "imported":
+			files["x.html"] = imp + pkgDecls + "{% macro Run %}" + runBody + other + "{% end %}"
+			files["index.html"] = `{% import "x.html" %}{{ Run() }}`
+		case "extending":
+			if c.site == "from-extended-layout" {
+				files["index.html"] = `{% extends "layout.html" %}` + imp + own + "{% macro Run %}" + other + "{% end %}"
+				files["layout.html"] = `L[in:{{ M() }}{{ Run() }}]`
+			} else {
+				files["index.html"] = `{% extends "layout.html" %}` + imp + pkgDecls + "{% macro Run %}" + runBody + other + "{% end %}"
 				files["layout.html"] = `L[{{ Run() }}]`
 			}
 		}
 		return files
 	}
-	// a plain import puts the exported names in the file's own scope: declaring
-	// the same name there is a redeclaration, as with Go's dot imports
-	return gen(false), gen(true), c.form == "plain" && c.pos == "top"
+	// a plain import, or a "for" list with the name, puts the imported name
+	// in the file's own scope: declaring the same name there is a
+	// redeclaration, as with Go's dot imports
+	clash := (c.form == "plain" || c.form == "for-clash-and-other") && c.pos == "top"
+	return gen(false), gen(true), clash
 }
 
 func rSpace() kit.Space {
 	var cases []rCase
 	for _, kind := range []string{"macro", "var"} {
-		for _, form := range []string{"plain", "for-other", "alias"} {
-			for _, host := range []string{"main", "imported", "extending"} {
+		for _, form := range []string{"plain", "for-other", "for-clash-and-other", "alias"} {
+			for _, host := range []string{"main", "layout", "imported", "extending"} {
 				for _, pos := range []string{"top", "inner-block"} {
-					cases = append(cases, rCase{kind, form, host, pos})
+					for _, site := range rSites {
+						if c := (rCase{kind, form, host, pos, site}); c.applicable() {
+							cases = append(cases, c)
+						}
+					}
 				}
 			}
 		}
@@ -340,15 +416,20 @@ func rSpace() kit.Space {
 			c := cases[i]
 			real, twin, clash := c.build()
 			a, b := run(real, "index.html"), run(twin, "index.html")
-			key := fmt.Sprintf("R|name-resolution|own-%s-named-as-imported|import=%s|declared-in=%s-file|position=%s", c.kind, c.form, c.host, c.pos)
+			key := fmt.Sprintf("R|name-resolution|own-%s-named-as-imported|import=%s|declared-in=%s-file|position=%s|call-site=%s", c.kind, c.form, c.host, c.pos, c.site)
 			if clash && a.buildErr != nil && b.buildErr == nil && strings.Contains(a.buildErr.Error(), "redeclared") {
 				return kit.Outcome{OK: true, Nontrivial: true, Class: "R: clash in one scope rejected as a redeclaration"}
+			}
+			if b.buildErr != nil || b.runErr != nil {
+				// the twin has no clash at all: it must work, or the generator is wrong
+				return kit.Outcome{OK: false, Nontrivial: true, Class: "R: twin does not run", Key: key + "|renamed-twin-does-not-run",
+					Detail: fmt.Sprintf("twin:\n%s  => %s", showFiles(twin), b)}
 			}
 			return compare("R", a, b, "clashing", "renamed-twin", false,
 				func(a, b result) string { return key },
 				func() string {
-					return fmt.Sprintf("own %s, import %s, declared in the %s file at %s\nfiles:\n%s  => %s\ntwin (imported names renamed, every reference names its lexically visible declaration):\n%s  => %s",
-						c.kind, c.form, c.host, c.pos, showFiles(real), a, showFiles(twin), b)
+					return fmt.Sprintf("own %s, import %s, declared in the %s file at %s, reference under test: %s\nfiles:\n%s  => %s\ntwin (imported names renamed, every reference names its lexically visible declaration):\n%s  => %s",
+						c.kind, c.form, c.host, c.pos, c.site, showFiles(real), a, showFiles(twin), b)
 				}, key)
 		},
 		Describe: func(i uint64) any {
